@@ -236,6 +236,7 @@ class GraphModel(ModelObj):
         st = self.st
         ctx = I.ctx
         v0 = st.v
+        symkw = attrs.pop("__symkw__", None)
         # networkx creates missing endpoints silently
         for x in (u, w):
             if not ctx.entails(st.v.N(x)):
@@ -256,13 +257,24 @@ class GraphModel(ModelObj):
         for k, val in attrs.items():
             kk = to_z3(k, Key)
             st.upd("Ae", lambda old, a, b, k2, kk=kk, val=val: z3.If(AND(a == u, b == w, k2 == kk), to_z3(val, Val), old(a, b, k2)))
+        if symkw is not None:
+            self.add_edge_attrs(I, u, w, symkw)
         ctx.ghost["log"].append(("add_edge", u, w))
 
     def add_edge_attrs(self, I, u, w, attrs):
         """**attrs given as a symbolic dict (SymDict Key->Val): all keys stored."""
-        u, w = self._n(u), self._n(w)
-        dom, val = attrs.dom, attrs.val
-        self.st.upd("Ae", lambda old, a, b, k2: z3.If(AND(a == u, b == w, z3.Select(dom, k2)), z3.Select(val, k2), old(a, b, k2)))
+        from .values import SymDict
+        if isinstance(attrs, SymDict):
+            has, at = (lambda k: z3.Select(attrs.dom, k)), (lambda k: z3.Select(attrs.val, k))
+        else:
+            items = attrs.items
+            has = lambda k: OR(*[k == to_z3(kk, Key) for kk, _ in items])
+            def at(k):
+                e = VNone
+                for kk, vv in reversed(items):
+                    e = z3.If(k == to_z3(kk, Key), to_z3(vv, Val), e)
+                return e
+        self.st.upd("Ae", lambda old, a, b, k2: z3.If(AND(a == u, b == w, has(k2)), at(k2), old(a, b, k2)))
 
     def do_remove_edge(self, I, u, w):
         u, w = self._n(u), self._n(w)
